@@ -8,7 +8,7 @@ Definition zmean (a b : Z) : Z := ((a + b) / 2)%Z.
 
 Definition err_eqb (a b : err) : bool :=
   match a, b with
-  | EValue, EValue | EIndex, EIndex | EUnbound, EUnbound | ERagged, ERagged
+  | EValue, EValue | EKey, EKey | EIndex, EIndex | EUnbound, EUnbound | ERagged, ERagged
   | EShape, EShape | ELength, ELength | EDupIndex, EDupIndex => true
   | _, _ => false
   end.
@@ -24,16 +24,23 @@ Definition pair_eqb (a b : nat * nat) : bool := (fst a =? fst b) && (snd a =? sn
 Definition idx_eqb (a b : dst_indices) : bool :=
   list_eqb pair_eqb (fst a) (fst b) && list_eqb pair_eqb (snd a) (snd b).
 
-(* compact days: the rows of one local date are one hour apart (checked by the harness on the real index
-   before it uses this encoding), first row at `utc0` hours since the epoch *)
-Definition cday := (Z * list nat * bool)%type.      (* (utc0, local hours, observed non-null on every row) *)
-Fixpoint expand_from (u : Z) (hs : list nat) (obs : bool) : day :=
+(* compact days: the rows of one local date are 60 minutes apart (checked by the harness on the real index
+   before it uses this encoding), first row at `utc0` minutes since the epoch; `obs` is the null-pattern of the
+   `observed` column: a default and the positions (within the day) where the cell differs from it *)
+Definition cday := (Z * list nat * (bool * list nat) * option err)%type.
+Fixpoint expand_from (u : Z) (pos : nat) (hs : list nat) (obs : bool * list nat) : list hour_stamp :=
   match hs with
   | [] => []
-  | h :: t => {| hs_utc := u; hs_hour := h; hs_obs := obs |} :: expand_from (u + 1)%Z t obs
+  | h :: t => {| hs_utc := u; hs_hour := h;
+                 hs_obs := if existsb (Nat.eqb pos) (snd obs) then negb (fst obs) else fst obs |}
+              :: expand_from (u + 60)%Z (S pos) t obs
   end.
-Definition expand (c : cday) : day := let '(u, hs, obs) := c in expand_from u hs obs.
-Definition reg (u : Z) (obs : bool) : cday := (u, seq 0 24, obs).
+Definition expand (c : cday) : day :=
+  let '(u, hs, obs, loc) := c in {| d_rows := expand_from u 0 hs obs; d_loc := loc |}.
+
+(* ---- stream ci : _get_contiguous_datetime *)
+Definition check_ci (c : Z * Z * list Z) : bool :=
+  let '(s, e, expected) := c in list_eqb Z.eqb (contiguous_index s e) expected.
 
 (* ---- stream gi : _get_dst_indices *)
 Definition check_gi (c : list cday * res dst_indices) : bool :=
@@ -55,16 +62,18 @@ Definition check_ts (c : list Z * dst_indices * option (list Z)) : bool :=
   opt_eqb (list_eqb Z.eqb) (transform_spec zmean pred idx) expected.
 
 (* ---- stream hp : HourlyModel.predict, outcome only (values come from the regression, which is not modelled) *)
-Inductive exc_class := XValueError | XIndexError | XUnboundLocalError.
+Inductive exc_class := XValueError | XIndexError | XUnboundLocalError | XKeyError.
 Definition class_of (e : err) : exc_class :=
   match e with
   | EIndex => XIndexError
   | EUnbound => XUnboundLocalError
+  | EKey => XKeyError
   | _ => XValueError
   end.
 Definition exc_eqb (a b : exc_class) : bool :=
   match a, b with
-  | XValueError, XValueError | XIndexError, XIndexError | XUnboundLocalError, XUnboundLocalError => true
+  | XValueError, XValueError | XIndexError, XIndexError | XUnboundLocalError, XUnboundLocalError
+  | XKeyError, XKeyError => true
   | _, _ => false
   end.
 Inductive outcome := Rows (n : N) (index_kept : bool) | Raised (c : exc_class).
